@@ -763,13 +763,17 @@ void reb_integrator_bs_part2(struct reb_simulation* r){
         if (ri_bs->nbody_ode->length != nbody_length){
             reb_ode_free(ri_bs->nbody_ode);
             ri_bs->nbody_ode = NULL;
+            ri_bs->first_or_last_step = 1; // Particle number changed. Restart step size control.
         }
     }
     if (ri_bs->nbody_ode == NULL){ 
+        // Keep first_or_last_step. It is 1 after a reset, but might be 0 if the 
+        // simulation has been restored from a Simulationarchive (bit-wise reproducibility).
+        int first_or_last_step = ri_bs->first_or_last_step;
         ri_bs->nbody_ode = reb_ode_create(r, nbody_length);
         ri_bs->nbody_ode->derivatives = nbody_derivatives;
         ri_bs->nbody_ode->needs_nbody = 0; // No need to update unless there's another ode
-        ri_bs->first_or_last_step = 1;
+        ri_bs->first_or_last_step = first_or_last_step;
     }
     
     for (int s=0; s < r->N_odes; s++){
